@@ -48,10 +48,10 @@ type grState struct {
 	serial  int
 	llgr    map[wFamily]time.Duration // LLGR deadline per family (0: not running)
 	llgrOn  bool
-	capFams []string // families the peer will list in its next GR capability
+	capFams []string      // families the peer will list in its next GR capability
 	llgrEnd time.Duration // instant at which the last long-lived timer runs out (0: none running)
-	fuzzy   bool     // LLGR with a further loss before End-of-RIB: RFC 9494 leaves the details open; checks suspended
-	deleted bool     // the neighbour was removed by the operator (until it is added again): nothing of it may remain (C02)
+	fuzzy   bool          // LLGR with a further loss before End-of-RIB: RFC 9494 leaves the details open; checks suspended
+	deleted bool          // the neighbour was removed by the operator (until it is added again): nothing of it may remain (C02)
 }
 
 func (w *simWorld) gr() *grState { return w.fam.(*grState) }
